@@ -98,7 +98,7 @@ func jobSyncMonitor(res *Result, m *mJob, cfg jsCfg, ops []jsOp, obs []jsObs, js
 	truthFinish := map[string]int64{}   // per task name: when the attempt really ended
 	truthSucceeded := map[string]bool{} // per hash: a Pod of it really succeeded
 	everRecorded := map[string]bool{}   // task names that appeared in some stored status
-	userTouched := false                // kill or delete issued by the user
+	editedSinceFinished := false        // kill or delete issued by the user after the Job was first stored as finished
 	foreignSeen := false
 	var prevJob *execution.Job
 	var prevPods []*corev1.Pod
@@ -120,7 +120,9 @@ func jobSyncMonitor(res *Result, m *mJob, cfg jsCfg, ops []jsOp, obs []jsObs, js
 		}
 		switch o.Kind {
 		case "kill", "delete":
-			userTouched = true
+			if prevJob != nil && jobFinished(prevJob) {
+				editedSinceFinished = true
+			}
 		case "kubelet":
 			switch o.Step {
 			case "succeed":
@@ -342,9 +344,70 @@ func jobSyncMonitor(res *Result, m *mJob, cfg jsCfg, ops []jsOp, obs []jsObs, js
 			if jobFinished(a) && !jobFinished(b) {
 				hit("C11", "C11/finished-became-unfinished"+lagSfx(ob), fmt.Sprintf("op %d: phase %s -> %s", k, a.Status.Phase, b.Status.Phase))
 			}
+			// a create answered AlreadyExists by a Pod that is the Job's own but not yet in the Pod
+			// cache (left by an earlier pass whose status write failed): nothing can be decided
+			// yet - the pass must end there with an error and be retried
+			if o.Kind == "sync" {
+				for i, act := range ob.Actions {
+					if act.Verb != "create" || act.Outcome != 1 {
+						continue
+					}
+					own, cached := false, false
+					for _, p := range prevPods {
+						if p.Name == act.Name && podControlled(p) {
+							own = true
+						}
+					}
+					for _, p := range ob.CachedPods {
+						if p.Name == act.Name {
+							cached = true
+						}
+					}
+					if own && !cached {
+						if i != len(ob.Actions)-1 || ob.OK {
+							hit("C09", "C09/own-task-not-awaited"+lagSfx(ob), fmt.Sprintf("op %d: create of %s hit the Job's own Pod, which the Pod cache has not delivered yet; the pass went on (%d more API calls, error returned: %v) instead of retrying", k, act.Name, len(ob.Actions)-1-i, !ob.OK))
+							hit("C20", "C20/own-task-refused-after-failed-pass"+lagSfx(ob), fmt.Sprintf("op %d: create of %s hit the Job's own Pod (left by an earlier pass), not yet in the Pod cache; the pass went on (%d more API calls, error returned: %v) instead of retrying", k, act.Name, len(ob.Actions)-1-i, !ob.OK))
+						}
+						break
+					}
+				}
+			}
+			// an admission error is terminal: it may only be raised when the API refused the task as
+			// invalid, or a Pod that is NOT the Job's own holds the task's name. A Pod of the Job
+			// itself (created by an earlier pass whose status write failed) must be adopted, however
+			// late the Pod cache learns of it.
+			if _, had := jobutil.GetAdmissionErrorMessage(a); !had && o.Kind == "sync" {
+				if _, has := jobutil.GetAdmissionErrorMessage(b); has {
+					justified := false
+					for _, act := range ob.Actions {
+						if act.Verb != "create" {
+							continue
+						}
+						if act.Outcome == 2 {
+							justified = true
+						}
+						if act.Outcome == 1 {
+							for _, p := range prevPods {
+								if p.Name == act.Name && !podControlled(p) {
+									justified = true
+								}
+							}
+						}
+					}
+					if !justified {
+						hit("C09", "C09/own-task-refused"+lagSfx(ob), fmt.Sprintf("op %d: the Job was given an admission error although no create was refused as invalid and no foreign Pod holds a task name", k))
+						hit("C20", "C20/own-task-refused-after-failed-pass"+lagSfx(ob), fmt.Sprintf("op %d: the Job was given an admission error although no create was refused as invalid and no foreign Pod holds a task name (a Pod created by an earlier, failed pass is the Job's own)", k))
+					}
+				}
+			}
 			// exempt once the user has killed/deleted the Job, or the Job is being deleted at all
 			// (TTL clean-up by the controller rewrites the status of a deleting Job; documented in DESIGN.md)
-			if jobFinished(a) && jobFinished(b) && !userTouched && a.DeletionTimestamp == nil && b.DeletionTimestamp == nil {
+			if !jobFinished(a) {
+				editedSinceFinished = false
+			}
+			// a user edit made BEFORE the Job finished (e.g. a kill time still in the future when
+			// the last task ended) does not excuse a later change of the recorded result
+			if jobFinished(a) && jobFinished(b) && !editedSinceFinished && a.DeletionTimestamp == nil && b.DeletionTimestamp == nil {
 				fa, fb := a.Status.Condition.Finished, b.Status.Condition.Finished
 				if fa.Result != fb.Result || !fa.FinishTimestamp.Equal(&fb.FinishTimestamp) {
 					hit("C11", "C11/result-or-finish-time-changed"+lagSfx(ob), fmt.Sprintf("op %d: %s@%d -> %s@%d", k, fa.Result, fa.FinishTimestamp.Unix(), fb.Result, fb.FinishTimestamp.Unix()))
